@@ -483,7 +483,7 @@ Proof. intros H. rewrite clear_results_names. apply NoDup_filter, H. Qed.
 (* ---------- prepare_for_resubmission ---------- *)
 Theorem prepare_spec c rerun d : c_complete c = true ->
   exists c', prepare c rerun d = Some c' /\
-    c_complete c' = false /\ c_submitter c' = c_submitter c /\ c_num c' = c_num c /\ c_groups c' = c_groups c /\
+    c_complete c' = false /\ c_canceled c' = false /\ c_submitter c' = c_submitter c /\ c_num c' = c_num c /\ c_groups c' = c_groups c /\
     c_submitted c' = Z.of_nat (length (filter (fun j => negb (memN (s_name j) rerun) && negb (jstate_eqb (s_state j) NOT_SUBMITTED)) (c_jobs c))) /\
     c_completed c' = Z.of_nat (length (filter (fun j => negb (memN (s_name j) rerun) && jstate_eqb (s_state j) DONE) (c_jobs c))) /\
     c_jobs c' = map (prep_job rerun d) (c_jobs c) /\
@@ -491,6 +491,30 @@ Theorem prepare_spec c rerun d : c_complete c = true ->
 Proof.
   intros Hc. unfold prepare. rewrite Hc. eexists. split; [reflexivity|]. cbn. repeat split.
   rewrite map_map. apply map_ext. intros j. unfold prep_job. destruct (memN (s_name j) rerun); reflexivity.
+Qed.
+
+Lemma prepare_clears_canceled c rerun d c' : prepare c rerun d = Some c' -> round_may_submit c' = true.
+Proof. unfold prepare. destruct (c_complete c); [|discriminate]. intros E. inversion E. reflexivity. Qed.
+
+(* the jobs offered to the submitter after the reset are exactly the rerun set - provided no job
+   outside the rerun set was still NOT_SUBMITTED when the submission completed *)
+Theorem offered_exact c rerun d c' :
+  prepare c rerun d = Some c' ->
+  (forall j, In j (c_jobs c) -> ~ In (s_name j) rerun -> s_state j <> NOT_SUBMITTED) ->
+  forall x, In x (offered c') <-> In x rerun /\ In x (map s_name (c_jobs c)).
+Proof.
+  unfold prepare. destruct (c_complete c); [|discriminate]. intros E H x. inversion E; subst c'. unfold offered. cbn.
+  rewrite in_map_iff. split.
+  - intros [j' [En Hj']]. apply filter_In in Hj'. destruct Hj' as [Hj' Hst]. apply in_map_iff in Hj'.
+    destruct Hj' as [j [Ej Hj]]. subst j' x. unfold prep_job in *.
+    destruct (memN (s_name j) rerun) eqn:M; cbn in *.
+    + split; [apply memN_In, M|apply in_map, Hj].
+    + exfalso. apply memN_false in M. apply (H j Hj M). destruct (s_state j); try discriminate Hst. reflexivity.
+  - intros [Hr Hn]. apply in_map_iff in Hn. destruct Hn as [j [En Hj]]. exists (prep_job rerun d j).
+    assert (M : memN (s_name j) rerun = true) by (apply memN_In; rewrite En; exact Hr).
+    unfold prep_job. rewrite M. cbn. split; [exact En|]. apply filter_In. split.
+    + apply in_map_iff. exists j. unfold prep_job. rewrite M. split; [reflexivity|exact Hj].
+    + reflexivity.
 Qed.
 
 Lemma prep_job_rerun rerun d j : In (s_name j) rerun ->
@@ -656,7 +680,7 @@ Proof.
     destruct (fault_eqb f FReset); [inversion E; subst; exfalso; apply Hp; exact Hr1|].
     destruct (fault_eqb f FPrepare) eqn:EP; [left; destruct f; try discriminate EP; reflexivity|].
     cbn [w_cluster] in E.
-    destruct (prepare_spec (w_cluster w1) rerun d Hc1) as [c3 [Ep [_ [Hs3 _]]]]. rewrite Ep in E.
+    destruct (prepare_spec (w_cluster w1) rerun d Hc1) as [c3 [Ep [_ [_ [Hs3 _]]]]]. rewrite Ep in E.
     destruct (fault_eqb f FEvents) eqn:EE; [right; destruct f; try discriminate EE; reflexivity|].
     exfalso.
     assert (Hs4 : forall ev, c_submitter (w_cluster {| w_cluster := c3; w_rows := clear_results (w_rows w1) rerun;
@@ -708,7 +732,7 @@ Proof.
   intros Hsub Hc Hs sel Hi.
   destruct (closure_least (w_config w) sel Hi) as [rerun [d [Ecl _]]].
   assert (Hc1 : c_complete (set_submitter (Some me) (w_cluster w)) = true) by exact Hc.
-  destruct (prepare_spec _ rerun d Hc1) as [c3 [Ep [_ [Hs3 _]]]].
+  destruct (prepare_spec _ rerun d Hc1) as [c3 [Ep [_ [_ [Hs3 _]]]]].
   exists rerun, d, c3. split; [exact Ecl|]. split; [exact Ep|]. intros w4.
   unfold resubmit, promote. rewrite Hs. cbn [c_complete set_submitter negb]. rewrite Hc. cbn [negb fault_eqb].
   cbn [with_cluster w_cluster w_rows w_results w_config w_events c_jobs set_submitter].
